@@ -92,7 +92,7 @@ fn main() {
     // seeded: medium lines with a few widths, and long lines.  The library overflows in
     // thickness_threshold = (2w)^2 * |delta|^2 (thick_points.rs:96) beyond w * |delta| ~ 23170 (that is
     // C08's business), so the driver keeps w * |delta| <= 20000 and |coordinates| <= 700.
-    let (n_med, n_long) = if th { (6000, 2500) } else { (300, 40) };
+    let (n_med, n_long) = if th { (15000, 6000) } else { (300, 40) };
     for _ in 0..n_med {
         let s = (rng.i32(-60, 60), rng.i32(-60, 60));
         let e = (s.0 + rng.i32(-48, 48), s.1 + rng.i32(-48, 48));
